@@ -66,6 +66,10 @@ chk("C16","exploration","differential runtime monitor: gateway introspection ans
  "Held on the introspection operations explored (generated selections with aliases/fragments/variables/includeDeprecated, the standard queries, rebuild by 'another gateway', accept/reject probes): answers equal the reference (lists as multisets), the rebuilt schema's fact set equals the merged schema's.",
  "Trusted: reference engine's introspection; list order treated as insignificant.","DESIGN.md §5 C16")
 
+chk("C19","exploration","round-trip runtime monitor over generated multipart layouts: parts re-parsed at the fake services + reference differential with content-derived upload markers; race detector as a verdict",
+ "Held on the layouts explored (single/batched, placeholders at top-level/list/nested positions, files bound to one or several paths, one variable feeding fields of several services): every bound file arrived at the owning service under the same path with the same name and bytes, no stray parts, responses equal the reference, no data race.",
+ "Trusted: harness multipart decoder at the services; marker substitution on both sides.","DESIGN.md §5 C19")
+
 claimed=set(C)
 na=[{"property_id":p['id'],"reason":"check under construction in this round; not claimed yet"} for p in props if p['id'] not in claimed]
 m={"version":1,"setup_cmd":"./run.sh build && ./run.sh selftest",
